@@ -351,15 +351,25 @@ fn eq_contents<T: Elem>(s: &Stack<T>, want: &[u32]) -> bool {
     *s == as_vec
 }
 
+/// Contents for a witness: whole when short, otherwise size and the top of the stack.
+fn brief(v: &[u32]) -> Value {
+    if v.len() <= 64 {
+        json!(v)
+    } else {
+        json!({"size": v.len(), "bottom_8": &v[..8], "top_24_bottom_first": &v[v.len() - 24..]})
+    }
+}
+
 fn witness(path: &[Op], cap0: usize, m: &Model, op: Op, vals: &[u32], got: &Ret, got_contents: &[u32], want: &[(Ret, Vec<u32>)]) -> Value {
+    let short = |r: &Ret| format!("{r:?}").chars().take(400).collect::<String>();
     json!({
         "initial_capacity": cap0,
         "history_before": path.iter().map(|o| o.render()).collect::<Vec<_>>(),
-        "model_before": {"contents_bottom_first": m.v, "capacity": if m.cap == usize::MAX { json!("usize::MAX") } else { json!(m.cap) }},
+        "model_before": {"contents_bottom_first": brief(&m.v), "capacity": if m.cap == usize::MAX { json!("usize::MAX") } else { json!(m.cap) }},
         "operation": op.render(),
-        "values_supplied": vals,
-        "observed": {"returned": format!("{got:?}"), "contents_bottom_first": got_contents},
-        "acceptable": want.iter().map(|(r, c)| json!({"returned": format!("{r:?}"), "contents_bottom_first": c})).collect::<Vec<_>>(),
+        "values_supplied": brief(vals),
+        "observed": {"returned": short(got), "contents_bottom_first": brief(got_contents)},
+        "acceptable": want.iter().map(|(r, c)| json!({"returned": short(r), "contents_bottom_first": brief(c)})).collect::<Vec<_>>(),
     })
 }
 
@@ -492,11 +502,20 @@ impl Dfs<'_> {
 
 fn random_history<T: Elem>(seed: u64, idx: u64, len: usize, rep: &mut Report) {
     let mut g = Xo::derive(seed, "C04-random", idx);
-    let cap0 = match g.below(4) {
-        0 => g.usize_below(5),
-        1 => g.usize_below(40),
-        2 => usize::MAX,
-        _ => 8,
+    // every fourth history works on large stacks with large bulk operations: growth strategies,
+    // chunked copies and size arithmetic only matter beyond toy sizes
+    let big = idx % 4 == 3;
+    let len = if big { len / 16 } else { len };
+    let bulk = |g: &mut Xo| if big { *g.pick(&[0usize, 1, 7, 64, 65, 500, 1024, 3000]) + g.usize_below(3) } else { g.usize_below(6) };
+    let cap0 = if big {
+        *g.pick(&[100usize, 1000, 4096, 4097, 70_000, usize::MAX])
+    } else {
+        match g.below(4) {
+            0 => g.usize_below(5),
+            1 => g.usize_below(40),
+            2 => usize::MAX,
+            _ => 8,
+        }
     };
     let mut real: Stack<T> = Stack::default();
     real.set_max_stack_size(cap0);
@@ -516,13 +535,14 @@ fn random_history<T: Elem>(seed: u64, idx: u64, len: usize, rep: &mut Report) {
             45..=49 => Op::Top,
             50..=53 => Op::Top2,
             54..=57 => Op::Top3,
-            58..=65 => Op::Discard(g.usize_below(6)),
-            66..=77 => Op::PushMany(g.usize_below(6)),
-            78..=89 => Op::TryExtend(g.usize_below(6)),
+            58..=65 => Op::Discard(bulk(&mut g)),
+            66..=77 => Op::PushMany(bulk(&mut g)),
+            78..=89 => Op::TryExtend(bulk(&mut g)),
             _ => Op::SetMax(match g.below(6) {
                 0 => usize::MAX,
                 1 => model.v.len().saturating_sub(g.usize_below(3)), // at or below current size
                 2 => model.v.len() + g.usize_below(3),
+                _ if big => *g.pick(&[0usize, 63, 64, 1000, 5000, 70_000]),
                 _ => g.usize_below(48),
             }),
         };
@@ -616,7 +636,7 @@ pub fn run(args: &Args) -> i32 {
     rep.finish(
         args,
         "exploration",
-        "every history (sequence of stack operations) up to the stated length from every initial capacity 0..=4 is enumerated without repetition (distinct by construction) and counted as non-trivial when it contains at least one successful insertion; random 10^4-operation histories are distinct by hash of their operation sequence",
+        "every history (sequence of stack operations) up to the stated length from every initial capacity 0..=4 is enumerated without repetition (distinct by construction) and counted as non-trivial when it contains at least one successful insertion; random 10^4-operation histories (every fourth: 625 operations on stacks of up to 70000 elements with bulk operations of up to 3000 items) are distinct by hash of their operation sequence",
         true,
         &[
             "the Vec+capacity model is the intended semantics of the statement",
